@@ -36,6 +36,8 @@ type synScalars struct {
 	H       float32 `tlv8:"8"`
 	I       bool    `tlv8:"9"`
 	J       string  `tlv8:"10"`
+	L       int8    `tlv8:"11"`
+	M       uint16  `tlv8:"12,optional"` // options behind the tag (F72)
 	Skipped uint32  // no tag: ignored by the library
 	K       []byte  `tlv8:"255"`
 }
@@ -225,6 +227,8 @@ func refFields(fs []tlvsty.Field, v reflect.Value) []byte {
 			out = append(out, refTlv(f.Tag, leBytes(fv.Uint(), 4))...)
 		case "u64":
 			out = append(out, refTlv(f.Tag, leBytes(fv.Uint(), 8))...)
+		case "i8":
+			out = append(out, refTlv(f.Tag, leBytes(uint64(fv.Int()), 1))...)
 		case "i16":
 			out = append(out, refTlv(f.Tag, leBytes(uint64(fv.Int()), 2))...)
 		case "i32":
@@ -271,7 +275,7 @@ func showFields(fs []tlvsty.Field, v reflect.Value) string {
 		switch f.Ty.Kind {
 		case "u8", "u16", "u32", "u64":
 			sb.WriteString(strconv.FormatUint(fv.Uint(), 10))
-		case "i16", "i32", "i64":
+		case "i8", "i16", "i32", "i64":
 			sb.WriteString(strconv.FormatInt(fv.Int(), 10))
 		case "f32":
 			sb.WriteString(strconv.FormatUint(uint64(math.Float32bits(float32(fv.Float()))), 10))
@@ -476,6 +480,8 @@ func (g *tlvsGen) fill(fs []tlvsty.Field, v reflect.Value, depth int) {
 			fv.SetUint(g.uintOf(32))
 		case "u64":
 			fv.SetUint(g.uintOf(64))
+		case "i8":
+			fv.SetInt(g.intOf(8))
 		case "i16":
 			fv.SetInt(g.intOf(16))
 		case "i32":
@@ -525,7 +531,7 @@ func (g *tlvsGen) fill(fs []tlvsty.Field, v reflect.Value, depth int) {
 
 var tlvsScalarKinds = []reflect.Type{
 	reflect.TypeOf(uint8(0)), reflect.TypeOf(uint16(0)), reflect.TypeOf(uint32(0)), reflect.TypeOf(uint64(0)),
-	reflect.TypeOf(int16(0)), reflect.TypeOf(int32(0)), reflect.TypeOf(int64(0)), reflect.TypeOf(float32(0)),
+	reflect.TypeOf(int8(0)), reflect.TypeOf(int16(0)), reflect.TypeOf(int32(0)), reflect.TypeOf(int64(0)), reflect.TypeOf(float32(0)),
 	reflect.TypeOf(false), reflect.TypeOf(""), reflect.TypeOf([]byte(nil)),
 }
 
@@ -636,6 +642,7 @@ type tlvsCase struct {
 }
 
 func checkC17(c *Ctx) {
+	c17NilPointer(c)
 	platformProbe(c, "C17", "tlvprobe") // every tag / integers at the ends of every width, on 32-bit and non-amd64 builds too
 	c.SetRule("streams: rt (type-directed random values of the library's RTP types, synthetic types covering every kind / nesting / both list forms, " +
 		"and random reflect.StructOf types: Marshal, reference encoder, Unmarshal of the result, model; non-trivial = round trip succeeded on a " +
@@ -1003,4 +1010,45 @@ func genTlvsInput(r *rand.Rand, u tlvsType, encoded [][]byte, encodedOf []tlvsTy
 		return append(b, craftShort(r, u.ty.Fields, 0)...), "valid+short-values"
 	}
 	return b, "valid"
+}
+
+// c17NilPointer (F72): a nested struct behind a pointer that is nil — what Unmarshal itself leaves when the item is absent.
+// Marshal writes no item for it (it panicked), so Unmarshal-then-Marshal gives the bytes back.
+type synPtr struct {
+	A uint8   `tlv8:"1"`
+	P *synOne `tlv8:"2"`
+	B uint8   `tlv8:"3"`
+}
+
+func c17NilPointer(c *Ctx) {
+	for i, v := range []synPtr{{A: 5, B: 6}, {A: 5, P: &synOne{V: 7}, B: 6}, {}} {
+		id := fmt.Sprintf("nil-pointer#%d", i)
+		if c.Skip(id) {
+			continue
+		}
+		in := map[string]interface{}{"type": "struct{A uint8 `1`; P *struct{V uint8 `7`} `2`; B uint8 `3`}", "P_is_nil": v.P == nil, "A": v.A, "B": v.B}
+		var b []byte
+		var err error
+		if msg, pan := safely(func() { b, err = tlv8.Marshal(v) }); pan {
+			c.Violate("tlv8.Marshal panics on a struct with a nil pointer to a nested struct (the value Unmarshal leaves for an absent item)", id, in, "bytes without that item", msg)
+			continue
+		}
+		if err != nil {
+			c.Violate("tlv8.Marshal fails on a supported struct type", id, in, "bytes", err.Error())
+			continue
+		}
+		var back synPtr
+		if msg, pan := safely(func() { err = tlv8.Unmarshal(b, &back) }); pan || err != nil {
+			c.Violate("tlv8.Unmarshal does not accept what Marshal produced", id, in, "the value", fmt.Sprint(msg, err))
+			continue
+		}
+		if back.A != v.A || back.B != v.B || (back.P == nil) != (v.P == nil) || (v.P != nil && back.P.V != v.P.V) {
+			c.Violate("value changed by tlv8 Marshal/Unmarshal round trip (pointer to a nested struct)", id, in, fmt.Sprintf("%+v", v), fmt.Sprintf("%+v", back))
+		}
+		var again []byte
+		if msg, pan := safely(func() { again, err = tlv8.Marshal(back) }); pan || err != nil || !bytes.Equal(again, b) {
+			c.Violate("tlv8.Marshal of what Unmarshal returned does not give the bytes back", id, in, hx(b), fmt.Sprint(hx(again), msg, err))
+		}
+		c.Count(id, true, "stream:nil-pointer")
+	}
 }
